@@ -128,10 +128,12 @@ CHECKS = {
          "Tracker.Process with exact CPR arithmetic): TLC explores every interleaving/spacing to depth 6-7 from six start places and "
          "checks Fresh, Gate, Accurate; TLC-simulated behaviours of that machine and seeded random histories are run through the real "
          "Decode.process_raw and validated call by call by TLC (Trace_Tracker) against the model (whole table incl. callsign, "
-         "velocity, altitude, Comm-B values) and against the property's own predicates with ground truth",
+         "velocity, altitude, Comm-B values) and against the property's own predicates with ground truth; the decoder process loop "
+         "Decode.run is specified separately (DecodeLoop: TLC safety + liveness over all send/poll interleavings, one schedule per "
+         "transition of its state graph stepped through the real loop, every step validated by TLC; deviations there are MODEL-DRIFT)",
          "Spec: ~0.5M states / 9M transitions per start place (quick: 3 places at depth 6; thorough: 6 at depth 7). Code: 600 (thorough "
          "12 000) histories of 8-30 (80) steps, 2-4 aircraft, every type code, Comm-B incl. unknown addresses, hex case upper/lower/"
-         "mixed, chunks spanning 0.5-250 s, long position-less stretches.",
+         "mixed, chunks spanning 0.5-250 s, long position-less stretches. Loop: 1.7 k (thorough 6 k) schedules, 29 k (146 k) steps.",
          "Trajectories within +-80 deg, surface <= 70 kt, a mode held > 10 s, landing within ~30 NM of the receiver, timestamps multiples "
          "of 0.5 s; ground truth comes from the harness's integer CPR encoder, which TLC re-checks against the spec encoder on every squitter.",
          "DESIGN.md section 5 C17"),
